@@ -326,7 +326,7 @@ type verifC18Env struct {
 	cp       *ControlPlane
 	ctrl     *DnsController
 	inflight atomic.Int64
-	probes   sync.Map // host -> count
+	probes   sync.Map  // host -> count
 	t0       time.Time // fixtures complete
 }
 
@@ -707,6 +707,8 @@ func TestVerifC18(t *testing.T) {
 	// ---- level 2: re-route and node dialer ------------------------------------------
 	verifC18Level2(m, env, classes, dsts, ports)
 
+	verifC18KnowledgeHistories(m)
+	m.Require("knowledge_probe_inside_original_ttl", "knowledge_probe_after_every_original_ttl", "knowledge_sibling_removed")
 	m.Require("table_expect_dst", "table_expect_name", "table_expect_literal", "table_expect_either", "table_expect_name-anyport", "table_expect_literal-anyport",
 		"random_names_dst", "random_names_name", "judged_fixed_ttl0_known_until_original_ttl", "l2_rerouted_to_other_group", "l2_rerouted_to_builtin_dials_dst", "l2_dialer_received_name", "l2_dialer_received_dst")
 	m.Done(t)
